@@ -100,6 +100,9 @@ func load(c *Ctx, o loadOpts, patterns ...string) (*Prog, error) {
 		return nil, fmt.Errorf("%d load/type errors in %s packages", nerr, modPath)
 	}
 	for _, pk := range pkgs {
+		if pk.IllTyped {
+			return nil, fmt.Errorf("package %s is ill-typed in this configuration (a dependency did not load)", pk.PkgPath)
+		}
 		if pk.Types == nil || len(pk.Syntax) == 0 {
 			return nil, fmt.Errorf("package %s has no syntax (build constraints exclude all files?)", pk.PkgPath)
 		}
@@ -122,7 +125,13 @@ func load(c *Ctx, o loadOpts, patterns ...string) (*Prog, error) {
 	if o.tags != "" || len(o.env) > 0 {
 		cfgName = strings.TrimSpace("tags=" + o.tags + " " + strings.Join(o.env, " "))
 	}
-	c.configs = append(c.configs, cfgName)
+	dup := false
+	for _, s := range c.configs {
+		dup = dup || s == cfgName
+	}
+	if !dup {
+		c.configs = append(c.configs, cfgName)
+	}
 	var prog *ssa.Program
 	bmode := ssa.BuilderMode(0)
 	if o.deep {
@@ -135,7 +144,22 @@ func load(c *Ctx, o loadOpts, patterns ...string) (*Prog, error) {
 	return p, nil
 }
 
+type loadSkip string
+
 func mustLoad(c *Ctx, o loadOpts, patterns ...string) *Prog {
+	if c.override != nil && o.dir == "" {
+		if len(o.env) > 0 || o.tags != "" {
+			// the check iterates build configurations itself; do not multiply them
+			panic(loadSkip("check-specific configuration"))
+		}
+		o.env = append(o.env, c.override.env...)
+		o.tags = c.override.tags
+		p, err := load(c, o, patterns...)
+		if err != nil {
+			panic(loadSkip(err.Error()))
+		}
+		return p
+	}
 	p, err := load(c, o, patterns...)
 	if err != nil {
 		fmt.Fprintf(os.Stderr, "perfcheck: %s: cannot load %v: %v\n", c.Prop, patterns, err)
